@@ -85,6 +85,11 @@ CLAIMED = {
         "Static: for every track shape in the partition (1-2 bars; entries: rest, empty, 1/2/3 notes, tempo-changing; with/without a MIDI instrument; rests leading/inner/trailing/across bar lines) every pending non-zero delay is emitted exactly once and the decoded stream equals the event model at symbolic absolute ticks (int(round(288/value)) per entry): note-on/off pairs with pitch+12, channel, velocity; tempo 60000000//bpm; bank select then program change on the first note's channel; time and key signature per bar; chunk and file headers have the right tags, lengths, format 1, 72 ticks and a track count equal to the emitted chunks; bank select is controller 0 on the given channel; each of the 30 keys (string or Key object) is written with its signed signature and mode; write_* repeat the whole content repeat+1 times into one MidiTrack per track; the VLQ encoder equals the standard on boundary neighbourhoods.",
         "Shapes beyond 2 bars x 4 entries are covered by the symbolic per-entry argument, not enumerated. Float log in the VLQ length is checked on neighbourhoods only. Trusted: CPython ast, abstract evaluator + engine/mididom.py (variants/c16.py), the event model in rules/c16.py.",
         "DESIGN.md section 2, C16"),
+    "C17": (
+        "writer/reader agreement analysis: the writer's encoders are evaluated abstractly to bytes for representative parameters and fed to the reader's decoders (event parser, VLQ reader, header/chunk parsers, per-event arms of MIDI_to_Composition with the file parser summarised); rejection paths evaluated on malformed headers",
+        "Static: the reader decodes the writer's file header (format 1, track count, 72 ticks) and chunk length; note-on/off (incl. velocity 0 = off), program change and controller events come back with the fields the writer was given and the right number of bytes consumed; every one of the 30 keys, the tested meters, every tested bpm in 4..1000 (all of them in the thorough tier), track name, program number, pitch number, channel and velocity survive writer -> reader; the VLQ reader inverts the VLQ writer on boundary neighbourhoods; a bad header tag, track tag or format number raises.",
+        "Not decided: the bar-rebuilding state machine (delta times -> entries/rests/bar lines), e.g. a track beginning with a rest coming back shifted. Representative parameter values, not all 2^21 event encodings. Trusted: CPython ast, abstract evaluator + engine/mididom.py (variants/c17.py), C16.",
+        "DESIGN.md section 2, C17"),
     "C06": (
         "offset-domain abstract interpretation of every chord builder (interval constructors summarised by their C02 post-condition) against a meaning-keyed chord-theory oracle; table agreement; abstract evaluation of the shorthand parser on root shapes x keys, aliases, slash, polychord, NC, list and malformed classes",
         "Static: each of the shorthand builders (incl. the lambda) yields, for 7 root letters x arbitrary accidentals, exactly the (letter, semitone) list its meaning prescribes; chord_shorthand and chord_shorthand_meaning have equal key sets; from_shorthand maps every key, every min/mi/-/maj/ma alias spelling, slash basses, polychords, NC and list input to the right builder result and rejects unknown suffixes / bad roots / bad basses with the documented errors.",
